@@ -1,0 +1,113 @@
+//go:build verif
+
+// Verification contracts for the etcd lease manager (property C18; comment-only, read by /verif/govc).
+// This file contains no executable code.
+//
+// Every etcd write a LeaseManager issues must be a transaction guarded by a comparison on the SAME key:
+//   acquire   : If(CreateRevision(key) == 0)   Then(Put(key, brokerID, lease))      - touches only absent keys
+//   reacquire : If(Value(key) == brokerID)     Then(Put(key, brokerID, lease))      - touches only keys naming this broker
+//   release   : If(Value(key) == brokerID)     Then(Delete(key))                    - touches only keys naming this broker
+// so no action of one broker can change or remove a key that names another broker (the guarantee the
+// at-most-one-owner argument rests on; see /verif/DESIGN.md C18).
+
+package metadata
+
+//@ func (m *LeaseManager) Release
+//@   never_calls [C18.release_no_unguarded_write] go.etcd.io/etcd/client/v3.KV.Delete, go.etcd.io/etcd/client/v3.KV.Put, go.etcd.io/etcd/client/v3.KV.Do
+//@   ghost gKey string = ""
+//@   ghost gCmp go.etcd.io/etcd/client/v3.Cmp = nil
+//@   at leaseKey#1 after set gKey = ret0
+//@   at Value#1 before assert [C18.release_guard_on_lease_key] arg0 == gKey
+//@   at Compare#1 before assert [C18.release_guard_compares_owner] arg1 == "=" && boxed(arg2, "string", m.brokerID)
+//@   at OpDelete#1 before assert [C18.release_deletes_only_guarded_key] arg0 == gKey
+//@   at OpDelete#1 before assert [C18.release_removes_local_ownership_first] !has(m.owned, resourceID)
+//@   ghost gCmpV clientv3.Cmp = nil
+//@   ghost gCmpR clientv3.Cmp = nil
+//@   ghost gOp clientv3.Op = nil
+//@   ghost gTxn clientv3.Txn = nil
+//@   at Value#1 after set gCmpV = ret0
+//@   at Compare#1 before assert [C18.release_guard_is_value_of_key] arg0 == gCmpV
+//@   at Compare#1 after set gCmpR = ret0
+//@   at OpDelete#1 after set gOp = ret0
+//@   at Txn#1 after set gTxn = ret0
+//@   at If#1 before assert [C18.release_txn_if_is_the_guard] recv == gTxn && len(arg0) == 1 && arg0[0] == gCmpR
+//@   at If#1 after set gTxn = ret0
+//@   at Then#1 before assert [C18.release_txn_then_is_the_delete] recv == gTxn && len(arg0) == 1 && arg0[0] == gOp
+//@   at Then#1 after set gTxn = ret0
+//@   at Commit#1 before assert [C18.release_commits_that_txn] recv == gTxn
+
+//@ func (m *LeaseManager) doAcquire
+//@   never_calls [C18.acquire_no_unguarded_write] go.etcd.io/etcd/client/v3.KV.Delete, go.etcd.io/etcd/client/v3.KV.Put, go.etcd.io/etcd/client/v3.KV.Do
+//@   ghost gKey string = ""
+//@   ghost gCmpV clientv3.Cmp = nil
+//@   ghost gCmpR clientv3.Cmp = nil
+//@   ghost gOp clientv3.Op = nil
+//@   ghost gGet clientv3.Op = nil
+//@   ghost gOpt clientv3.OpOption = nil
+//@   ghost gLease clientv3.LeaseID = 0
+//@   ghost gTxn clientv3.Txn = nil
+//@   ghost gResp *clientv3.TxnResponse = nil
+//@   ghost gSess *concurrency.Session = nil
+//@   at getOrCreateSession#1 after set gSess = ret0
+//@   at leaseKey#1 after set gKey = ret0
+//@   at CreateRevision#1 before assert [C18.acquire_guard_on_lease_key] arg0 == gKey
+//@   at CreateRevision#1 after set gCmpV = ret0
+//@   at Compare#1 before assert [C18.acquire_guard_is_key_absent] arg0 == gCmpV && arg1 == "=" && boxed(arg2, "int", 0)
+//@   at Compare#1 after set gCmpR = ret0
+//@   at Lease#1 before assert [C18.acquire_uses_current_session_lease] arg_recv == gSess
+//@   at Lease#1 after set gLease = ret0
+//@   at WithLease#1 before assert [C18.acquire_put_attached_to_session_lease] arg0 == gLease
+//@   at WithLease#1 after set gOpt = ret0
+//@   at OpPut#1 before assert [C18.acquire_puts_guarded_key_with_own_id] arg0 == gKey && arg1 == m.brokerID && len(arg2) == 1 && arg2[0] == gOpt
+//@   at OpPut#1 after set gOp = ret0
+//@   at OpGet#1 after set gGet = ret0
+//@   at Txn#1 after set gTxn = ret0
+//@   at If#1 before assert [C18.acquire_txn_if_is_the_guard] recv == gTxn && len(arg0) == 1 && arg0[0] == gCmpR
+//@   at If#1 after set gTxn = ret0
+//@   at Then#1 before assert [C18.acquire_txn_then_is_the_put] recv == gTxn && len(arg0) == 1 && arg0[0] == gOp
+//@   at Then#1 after set gTxn = ret0
+//@   at Else#1 before assert [C18.acquire_txn_else_only_reads] recv == gTxn && len(arg0) == 1 && arg0[0] == gGet
+//@   at Else#1 after set gTxn = ret0
+//@   at Commit#1 before assert [C18.acquire_commits_that_txn] recv == gTxn
+//@   at Commit#1 after set gResp = ret0
+//@   at mapupdate#1 before assert [C18.acquire_owns_only_after_successful_txn] gResp != nil && gResp.Succeeded && m.session == gSess
+
+//@ func (m *LeaseManager) reacquire
+//@   never_calls [C18.reacquire_no_unguarded_write] go.etcd.io/etcd/client/v3.KV.Delete, go.etcd.io/etcd/client/v3.KV.Put, go.etcd.io/etcd/client/v3.KV.Do
+//@   ghost rCmpV clientv3.Cmp = nil
+//@   ghost rCmpR clientv3.Cmp = nil
+//@   ghost rOp clientv3.Op = nil
+//@   ghost rOpt clientv3.OpOption = nil
+//@   ghost rLease clientv3.LeaseID = 0
+//@   ghost rTxn clientv3.Txn = nil
+//@   ghost rResp *clientv3.TxnResponse = nil
+//@   at Value#1 before assert [C18.reacquire_guard_on_lease_key] arg0 == leaseKey
+//@   at Value#1 after set rCmpV = ret0
+//@   at Compare#1 before assert [C18.reacquire_guard_compares_owner] arg0 == rCmpV && arg1 == "=" && boxed(arg2, "string", m.brokerID)
+//@   at Compare#1 after set rCmpR = ret0
+//@   at Lease#1 before assert [C18.reacquire_uses_given_session_lease] arg_recv == session
+//@   at Lease#1 after set rLease = ret0
+//@   at WithLease#1 before assert [C18.reacquire_put_attached_to_session_lease] arg0 == rLease
+//@   at WithLease#1 after set rOpt = ret0
+//@   at OpPut#1 before assert [C18.reacquire_puts_guarded_key_with_own_id] arg0 == leaseKey && arg1 == m.brokerID && len(arg2) == 1 && arg2[0] == rOpt
+//@   at OpPut#1 after set rOp = ret0
+//@   at Txn#1 after set rTxn = ret0
+//@   at If#1 before assert [C18.reacquire_txn_if_is_the_guard] recv == rTxn && len(arg0) == 1 && arg0[0] == rCmpR
+//@   at If#1 after set rTxn = ret0
+//@   at Then#1 before assert [C18.reacquire_txn_then_is_the_put] recv == rTxn && len(arg0) == 1 && arg0[0] == rOp
+//@   at Then#1 after set rTxn = ret0
+//@   at Commit#1 before assert [C18.reacquire_commits_that_txn] recv == rTxn
+//@   at Commit#1 after set rResp = ret0
+//@   at mapupdate#1 before assert [C18.reacquire_owns_only_after_successful_txn] rResp != nil && rResp.Succeeded && m.session == session
+
+//@ func (m *LeaseManager) ReleaseAll
+//@   never_calls [C18.release_all_no_unguarded_write] go.etcd.io/etcd/client/v3.KV.Delete, go.etcd.io/etcd/client/v3.KV.Put, go.etcd.io/etcd/client/v3.KV.Do, go.etcd.io/etcd/client/v3.KV.Txn
+//@   at Close#1 before assert [C18.release_all_forgets_ownership_before_closing_session] len(m.owned) == 0 && m.session == nil
+
+//@ func (m *LeaseManager) monitorSession
+//@   never_calls [C18.monitor_no_etcd_write] go.etcd.io/etcd/client/v3.KV.Delete, go.etcd.io/etcd/client/v3.KV.Put, go.etcd.io/etcd/client/v3.KV.Do, go.etcd.io/etcd/client/v3.KV.Txn
+//@   ensures [C18.expired_session_forgets_ownership] old(m.session) == session ==> m.session == nil && len(m.owned) == 0
+
+//@ func (m *LeaseManager) getOrCreateSession
+//@   modular
+//@   ensures [C18.session_result_nonnil] err == nil ==> result0 != nil
